@@ -80,6 +80,10 @@ def engines():
                     {"name": "P", "terms": OUT_TERMS, "aggregation": "BoundedSum", "defuzzifier": ("MeanOfMaximum", 2)}],
         "blocks": [{"conjunction": "Minimum", "disjunction": "Maximum", "implication": "AlgebraicProduct",
                     "rules": ["if X is a then O is a and P is not b", "if Y is b or X is b then P is very a and O is not a and P is b with 0.5"]}]}
+    # range-locked INPUT variables (the stored value is the clipped one; the caller's array is not to be touched)
+    E["input-lock-range"] = {"inputs": [{"name": "X", "terms": IN_TERMS, "lock_range": True, "range": (0.0, 1.0)}, {"name": "Y", "terms": IN_TERMS, "lock_range": True, "range": (0.25, 0.75)}],
+                             "outputs": [{"name": "O", "terms": OUT_TERMS, "aggregation": "Maximum", "defuzzifier": ("Centroid", 2)}],
+                             "blocks": [{"conjunction": "Minimum", "disjunction": "Maximum", "implication": "Minimum", "rules": base_rules}]}
     # input terms that hand the stored input value itself back (Function `x`): in-place arithmetic on a degree would write into the input
     E["function-input"] = {
         "inputs": [{"name": "X", "terms": [("Function", "lin", "x"), ("Function", "inv", "1 - x")]}],
@@ -124,10 +128,12 @@ def ob_engine(ename, spec0, N, lp, lr, sym_default, api, label):
                               "e1, e2 = build_engine(spec), build_engine(spec)",
                               "for e in (e1, e2):\n    for n, p in prev.items(): e.output_variable(n).value = p",
                               "try:",
-                              ("    e1.input_values = np.array(rows, dtype=float)" if api == "matrix" else
-                               "    for i, iv in enumerate(e1.input_variables): iv.value = np.array([r[i] for r in rows], dtype=float)"),
+                              ("    given = [np.array(rows, dtype=float)]; e1.input_values = given[0]" if api == "matrix" else
+                               "    given = [np.array([r[i] for r in rows], dtype=float) for i in range(len(rows[0]))]\n    for i, iv in enumerate(e1.input_variables): iv.value = given[i]"),
                               "    e1.process(); exc1 = None",
                               "except Exception as ex: exc1 = ex",
+                              ("if exc1 is None and not same(given[0], rows): verdict(True, 'the matrix handed to input_values was modified: %r' % (given[0].tolist(),))" if api == "matrix" else
+                               "if exc1 is None and not all(same(g, [r[i] for r in rows]) for i, g in enumerate(given)): verdict(True, 'an array handed to an input variable was modified: %r' % ([g.tolist() for g in given],))"),
                               "per_row = []; exc2 = None",
                               "try:",
                               "    for r in rows:",
@@ -157,12 +163,15 @@ def ob_engine(ename, spec0, N, lp, lr, sym_default, api, label):
                 for n, p in prev.items():
                     e.output_variable(n).value = p
             exc1 = exc2 = None
+            given = []
             try:
                 if api == "matrix":
-                    e1.input_values = sym_array([list(row) for row in X])
+                    given.append((sym_array([list(row) for row in X]), [x for row in X for x in row]))
+                    e1.input_values = given[0][0]
                 else:
                     for i, iv in enumerate(e1.input_variables):
-                        iv.value = sym_array([X[r][i] for r in range(N)])
+                        given.append((sym_array([X[r][i] for r in range(N)]), [X[r][i] for r in range(N)]))
+                        iv.value = given[-1][0]
                 e1.process()
             except core.Unsupported:
                 raise
@@ -179,13 +188,15 @@ def ob_engine(ename, spec0, N, lp, lr, sym_default, api, label):
                 raise
             except Exception as ex:  # noqa
                 exc2 = ex
-            return e1, per_row, exc1, exc2
+            return e1, per_row, exc1, exc2, given
 
         for p in ob.paths(pre, body):
             if p.exc is not None:
                 ob.unexpected(pre, p, label, ins, rp)
                 continue
-            e1, per_row, exc1, exc2 = p.result
+            e1, per_row, exc1, exc2, given = p.result
+            if exc1 is None:
+                ob.prove(pre, p, z3.And(*[same(a, b) for g, orig in given for a, b in zip(elements(g), orig)]), f"{label}/caller-arrays-untouched", ins, rp)
             if (exc1 is None) != (exc2 is None):
                 ob.prove(pre, p, False, f"{label}: batch raised {exc1!r}, row-by-row raised {exc2!r}", ins, rp)
                 continue
@@ -227,7 +238,7 @@ def _obligations(tier, seed):
             if not (ename in base and N == 2):
                 settings = [(False, False, False), (True, True, True), (True, False, False), (False, True, True)] if ename in base or tier != "quick" else [(False, False, False), (True, True, True)]
             for lp, lr, sd in settings:
-                apis = ("arrays", "matrix") if (ename in base and N == 2 and not sd) or tier != "quick" else (("arrays",) if (lp or N != 2) else ("matrix",))
+                apis = ("arrays", "matrix") if (ename in base and N == 2 and not sd) or tier != "quick" or ename == "input-lock-range" else (("arrays",) if (lp or N != 2) else ("matrix",))
                 for api in apis:
                     nm = f"{ename}/N{N}/{'LP' if lp else 'lp'}{'LR' if lr else 'lr'}{'D' if sd else 'd'}/{api}"
                     obs.append((nm, ob_engine(ename, spec, N, lp, lr, sd, api, nm)))
